@@ -354,6 +354,23 @@ func (s *epSuite) reset() {
 		recs = append(recs, e)
 	}
 	epochs.InitGenesis(w.Ctx, w.App.EpochsKeeper, *epochstypes.NewGenesisState(recs))
+	// what InitGenesis was given and what it stored (the driver checks it against the model's initGenesis)
+	{
+		fmtRec := func(e epochstypes.EpochInfo) string {
+			return fmt.Sprintf("%s:%s:%d:%d:%s:%s:%d", tokenSafe(e.Identifier), nsOf(e.StartTime), int64(e.Duration),
+				e.CurrentEpoch, nsOf(e.CurrentEpochStartTime), b01(e.EpochCountingStarted), e.CurrentEpochStartHeight)
+		}
+		var given, stored []string
+		for _, e := range recs {
+			given = append(given, fmtRec(e))
+		}
+		for _, e := range w.App.EpochsKeeper.AllEpochInfos(w.Ctx) {
+			stored = append(stored, fmtRec(e))
+		}
+		s.t.seq++
+		s.t.Line(fmt.Sprintf("G %d t=%s h=%d given=%s stored=%s", s.t.seq, nsOf(w.Ctx.BlockTime()), w.Ctx.BlockHeight(), strings.Join(given, ","), strings.Join(stored, ",")))
+		s.stat["initgenesis:ok"]++
+	}
 
 	gs := inflationtypes.GenesisState{Params: s.randParams(false), Period: uint64(mints0 / epp), EpochIdentifier: eid,
 		EpochsPerPeriod: epp, SkippedEpochs: uint64(skipped0)}
